@@ -2,7 +2,8 @@ import CrCube.Driver.Proto
 import CrCube.Driver.Counts
 import CrCube.Driver.SliceApi
 import CrCube.Driver.Collator
-import CrCube.Model.Pipeline
+import CrCube.Model.PipelineMeasures
+import CrCube.Driver.Scale
 
 open Lean
 
@@ -39,6 +40,12 @@ def tinsOfJson (j : Json) : Except String TIns := do
 
 def tinsListOfJson (j : Json) : Except String (List TIns) := do (← getList j).mapM tinsOfJson
 
+def dirName : Dir → String
+  | .row => "row"
+  | .col => "column"
+  | .table => "table"
+
+/-- public property name of a Val-valued measure; "key:…" = the blocks are a sort surrogate -/
 def MKey.name : MKey → String
   | .countsW => "counts"
   | .countsU => "unweighted_counts"
@@ -51,6 +58,28 @@ def MKey.name : MKey → String
   | .rowProps => "row_proportions"
   | .colProps => "column_proportions"
   | .tableProps => "table_proportions"
+  | .variance d => dirName d ++ "_proportion_variances"
+  | .stdErr d => "key:" ++ dirName d ++ "_std_err"
+  | .zscores => "key:zscores"
+  | .pvalues => "key:pvals"
+  | .colIndex => "column_index"
+  | .popProps => "key:population_proportions"
+  | .popStdErr => "key:population_std_err"
+  | .sums => "sums"
+  | .means => "means"
+  | .stddev => "stddev"
+  | .medians => "medians"
+  | .rowShare => "row_share_sum"
+  | .colShare => "column_share_sum"
+  | .totalShare => "total_share_sum"
+
+def OKey.name : OKey → String
+  | .stdDev d => dirName d ++ "_std_dev"
+  | .stdErr d => dirName d ++ "_std_err"
+  | .moe d => dirName d ++ "_proportions_moe"
+  | .zscores => "zscores"
+  | .pvals => "pvals"
+  | .popStdErr => "population_std_err"
 
 def SKey.name : SKey → String
   | .countsW => "counts"
@@ -58,8 +87,24 @@ def SKey.name : SKey → String
   | .basesW => "weighted_bases"
   | .basesU => "unweighted_bases"
   | .tableProps => "table_proportions"
+  | .stddevs => "key:table_proportion_stddevs"
+  | .stderrs => "key:table_proportion_stderrs"
+  | .popProps => "key:population_proportions"
+  | .popStderrs => "key:population_proportion_stderrs"
+  | .means => "means"
+  | .sums => "sums"
+  | .stddev => "stddev"
+  | .medians => "medians"
+  | .shareSum => "share_sum"
 
-/-- property name of `SecondOrderMeasures` → the pipeline's measure; `none` = not modelled -/
+def OSKey.name : OSKey → String
+  | .stddevs => "table_proportion_stddevs"
+  | .stderrs => "table_proportion_stderrs"
+  | .moes => "table_proportion_moes"
+  | .popStderrs => "population_proportion_stderrs"
+
+/-- property name of `SecondOrderMeasures` → the pipeline's measure (every value of the keyword
+    table `Collator.matrixMeasureProp`) -/
 def mkeyOfProp : String → Option MKey
   | "weighted_counts" => some .countsW
   | "unweighted_counts" => some .countsU
@@ -72,6 +117,23 @@ def mkeyOfProp : String → Option MKey
   | "row_proportions" => some .rowProps
   | "column_proportions" => some .colProps
   | "table_proportions" => some .tableProps
+  | "row_proportion_variances" => some (.variance .row)
+  | "column_proportion_variances" => some (.variance .col)
+  | "table_proportion_variances" => some (.variance .table)
+  | "row_std_err" => some (.stdErr .row)
+  | "column_std_err" => some (.stdErr .col)
+  | "table_std_err" => some (.stdErr .table)
+  | "zscores" => some .zscores
+  | "pvalues" => some .pvalues
+  | "column_index" => some .colIndex
+  | "population_proportions" => some .popProps
+  | "population_std_err" => some .popStdErr
+  | "sums" => some .sums
+  | "means" => some .means
+  | "stddev" => some .stddev
+  | "row_share_sum" => some .rowShare
+  | "column_share_sum" => some .colShare
+  | "total_share_sum" => some .totalShare
   | _ => none
 
 def skeyOfProp : String → Option SKey
@@ -80,11 +142,23 @@ def skeyOfProp : String → Option SKey
   | "weighted_bases" => some .basesW
   | "unweighted_bases" => some .basesU
   | "table_proportions" => some .tableProps
+  | "table_proportion_stddevs" => some .stddevs
+  | "table_proportion_stderrs" => some .stderrs
+  | "population_proportions" => some .popProps
+  | "population_proportion_stderrs" => some .popStderrs
+  | "means" => some .means
+  | "sums" => some .sums
+  | "share_sum" => some .shareSum
   | _ => none
 
 def margKeyOfProp : String → Option MargKey
   | "rows_unweighted_base" => some .baseU
   | "rows_weighted_base" => some .baseW
+  | "rows_table_proportion" => some .tableProp
+  | "rows_scale_mean" => some .scaleMean
+  | "rows_scale_mean_stddev" => some .scaleStddev
+  | "rows_scale_mean_stderr" => some .scaleStderr
+  | "rows_scale_median" => some .scaleMedian
   | _ => none
 
 /-- keyword → modelled key through the collator model's keyword table (`tbl`): a keyword the
@@ -134,13 +208,31 @@ def tdimOfJson (j : Json) : Except String TDim := do
     | t => do pure (some (← tinsListOfJson t))
   let hide ← if hasField j "hide" then getBools j "hide" else pure []
   let order ← orderOfJson (getFieldD j "order" .null)
+  let numVals ← if hasField j "numvals" then getVals j "numvals" else pure []
   pure { kind := Counts.dkOfString (← getStr j "kind"), catDate := getBoolD j "catdate" false
-         elems := elems, labels := labels, viewIns := view, trIns := tr, hide := hide
+         elems := elems, labels := labels, numVals := numVals, viewIns := view, trIns := tr, hide := hide
          prune := getBoolD j "prune" false, order := order }
 
 def jBoolMat (m : List (List Bool)) : Json := .arr (m.map jBools).toArray
 
-def sliceOutJson (o : SliceOut) : Json :=
+def jOptVals (o : Option (List Val)) : Json := match o with | some l => jVals l | none => .null
+
+def scaleJson (o : Option (List Scale.VecStats)) (stderrDefined : Bool) : Json :=
+  match o with
+  | none => .null
+  | some vs =>
+    jObj [("mean", jVals (vs.map (·.mean))), ("median", jVals (vs.map (·.median))),
+          ("stddev", .arr (vs.map (fun v => Scale.soutToJson v.stddev)).toArray),
+          ("stderr", if stderrDefined then .arr (vs.map (fun v => Scale.soutToJson v.stderr)).toArray else .null)]
+
+/-- the sort keys an order was computed from (base values ++ subtotal values), for the
+    harness' near-tie analysis; null for payload / explicit / label orders -/
+def sortKeysJson : ROrder → Json
+  | .byValue _ v sv => jVals (v ++ sv)
+  | _ => .null
+
+def sliceOutJson (c : CubeData) (x : SliceOutX) : Json :=
+  let o := x.core
   jObj ([("row_order", jInts o.rowOrder), ("column_order", jInts o.colOrder),
          ("shape", jNats [o.shape.1, o.shape.2]),
          ("inserted_row_idxs", jNats o.insertedRowIdxs), ("inserted_column_idxs", jNats o.insertedColIdxs),
@@ -149,14 +241,27 @@ def sliceOutJson (o : SliceOut) : Json :=
          ("row_label_idxs", jNats o.rowLabelIdxs), ("column_label_idxs", jNats o.colLabelIdxs),
          ("rows_margin", SliceApi.margJson o.rowsMargin), ("columns_margin", SliceApi.margJson o.columnsMargin),
          ("rows_base", SliceApi.margJson o.rowsBase), ("columns_base", SliceApi.margJson o.columnsBase),
-         ("table_margin", SliceApi.margJson o.tableMargin), ("table_base", SliceApi.margJson o.tableBase)]
-        ++ MKey.all.map (fun k => (MKey.name k, jMat (o.mat k))))
+         ("table_margin", SliceApi.margJson o.tableMargin), ("table_base", SliceApi.margJson o.tableBase),
+         ("population_proportions", jMat x.popProps), ("population_counts", jMat x.popCounts),
+         ("population_counts_moe", jOutMat x.popMoe),
+         ("rows_scale", scaleJson x.rowsScale x.rowsStderrDefined),
+         ("columns_scale", scaleJson x.colsScale x.colsStderrDefined),
+         ("rows_margin_proportion", jOptVals x.rowsMarginProp),
+         ("columns_margin_proportion", jOptVals x.colsMarginProp)]
+        ++ MKey.all.map (fun k => (MKey.name k, if sliceAvail c k then jMat (o.mat k) else .null))
+        ++ OKey.all.map (fun k => (OKey.name k, jOutMat (x.omat k))))
 
-def strandOutJson (o : StrandOut) : Json :=
+def strandOutJson (c : StrandData) (x : StrandOutX) : Json :=
+  let o := x.core
   jObj ([("row_order", jInts o.rowOrder), ("shape", jNats [o.shape]),
          ("inserted_row_idxs", jNats o.insertedRowIdxs), ("diff_row_idxs", jNats o.diffRowIdxs),
-         ("derived_row_idxs", jNats o.derivedRowIdxs), ("row_label_idxs", jNats o.rowLabelIdxs)]
-        ++ SKey.all.map (fun k => (SKey.name k, jVals (o.vec k))))
+         ("derived_row_idxs", jNats o.derivedRowIdxs), ("row_label_idxs", jNats o.rowLabelIdxs),
+         ("population_proportions", jVals x.popProps), ("population_counts", jVals x.popCounts),
+         ("population_counts_moe", jOuts x.popMoe),
+         ("scale_mean", Scale.soutToJson x.scale.mean), ("scale_median", Scale.soutToJson x.scale.median),
+         ("scale_std_dev", Scale.soutToJson x.scale.stddev), ("scale_std_err", Scale.soutToJson x.scale.stderr)]
+        ++ SKey.all.map (fun k => (SKey.name k, if strandAvail c k then jVals (o.vec k) else .null))
+        ++ OSKey.all.map (fun k => (OSKey.name k, jOuts (x.ovec k))))
 
 def blocksJson (b : Blocks) : Json :=
   jObj [("body", jMat b.bodyL), ("ins_cols", jMat b.insColsL),
@@ -187,6 +292,17 @@ def strandSpecJson (vars : List Var) (s : Survey) : Json :=
   jObj [("counts", mk s false), ("weighted_bases", mk s true),
         ("unweighted_counts", mk u false), ("unweighted_bases", mk u true)]
 
+/-- `FT.ofFlat` with O(1) cell access (the same function of the multi-index: an array lookup
+    instead of a list walk; the interpreter spends its time here otherwise) -/
+def ftOfFlat (shape : List Nat) (data : List Val) : FT :=
+  let a := data.toArray
+  ⟨shape, fun ix => a.getD (ravel shape ix) .nan⟩
+
+def optFT (j : Json) (k : String) (sh : List Nat) : Except String (Option FT) :=
+  match getFieldD j k .null with
+  | .null => pure none
+  | x => do pure (some (ftOfFlat sh (← getValList x)))
+
 /-- op `pipe_slice`: {vars, wdata, udata, k, rows: dim, cols: dim, survey?} ↦
     {"t": outputs under the transforms, "strip": the display orders under strip(transforms),
      "wf": side conditions hold, "spec": respondent-level cells; with "twins": true also
@@ -201,15 +317,18 @@ def opPipeSlice : Handler := fun j => do
   let rows ← tdimOfJson (← getField j "rows")
   let cols ← tdimOfJson (← getField j "cols")
   let sh := rawShapeOf vars
-  let c : CubeData := { vars := vars, wraw := FT.ofFlat sh wdata, uraw := FT.ofFlat sh udata, k := k
-                        wDiffNans := getBoolD j "wdn" false, uDiffNans := getBoolD j "udn" false }
+  let c : CubeData := { vars := vars, wraw := ftOfFlat sh wdata, uraw := ftOfFlat sh udata, k := k
+                        sums := ← optFT j "sums" sh, means := ← optFT j "means" sh
+                        stddevs := ← optFT j "stddevs" sh, medians := ← optFT j "medians" sh }
+  let population ← if hasField j "population" then getVal j "population" else pure (.fin 0)
+  let fraction ← if hasField j "fraction" then getVal j "fraction" else pure (.fin 1)
   let spec ← if hasField j "survey" then do
       let s ← Counts.surveyOfJson (← getField j "survey")
       pure (specJson vars s k)
     else pure .null
   match rows.resolve, cols.resolve with
   | some r, some cl =>
-    let out := runSlice c r cl
+    let out := runSliceX c r cl population fraction
     let out0 := runSlice c r.strip cl.strip
     let wf := decide (SliceWF c r cl)
     -- executable twins of `C05.slice_blocks_independent` / `slice_output_reindexed` (on request: they
@@ -219,10 +338,12 @@ def opPipeSlice : Handler := fun j => do
       let b := sliceBlocks c r cl key
       let b0 := sliceBlocks c r.strip cl.strip key
       b.bodyL == b0.bodyL && b.insColsL == b0.insColsL && b.insRowsL == b0.insRowsL && b.interL == b0.interL)
-    let reidx := !twins || out.reindexedFrom out0 c
-    pure (jObj [("t", sliceOutJson out),
+    let reidx := !twins || out.core.reindexedFrom out0 c
+    pure (jObj [("t", sliceOutJson c out),
                 ("strip", jObj [("row_order", jInts out0.rowOrder), ("column_order", jInts out0.colOrder)]),
                 ("wf", .bool wf), ("blocks_equal", .bool same), ("reindex_equal", .bool reidx),
+                ("row_sort_keys", sortKeysJson (rowROrder (sliceBlocks c r cl) (sliceAvail c) (rowMarginalKeys c r cl) r cl)),
+                ("column_sort_keys", sortKeysJson (colROrder (sliceBlocks c r cl) (sliceAvail c) r cl)),
                 ("n_row_subtotals", jNat r.subtotals.length), ("n_col_subtotals", jNat cl.subtotals.length),
                 ("row_insertion_ids", jInts (bogusIds r.cdim.subs)),
                 ("column_insertion_ids", jInts (bogusIds cl.cdim.subs)),
@@ -238,23 +359,28 @@ def opPipeStrand : Handler := fun j => do
   let udata ← getVals j "udata"
   let d ← tdimOfJson (← getField j "rows")
   let sh := rawShapeOf vars
-  let c : StrandData := { vars := vars, wraw := FT.ofFlat sh wdata, uraw := FT.ofFlat sh udata }
+  let c : StrandData := { vars := vars, wraw := ftOfFlat sh wdata, uraw := ftOfFlat sh udata
+                          sums := ← optFT j "sums" sh, means := ← optFT j "means" sh
+                          stddevs := ← optFT j "stddevs" sh, medians := ← optFT j "medians" sh }
+  let population ← if hasField j "population" then getVal j "population" else pure (.fin 0)
+  let fraction ← if hasField j "fraction" then getVal j "fraction" else pure (.fin 1)
   let spec ← if hasField j "survey" then do
       let s ← Counts.surveyOfJson (← getField j "survey")
       pure (strandSpecJson vars s)
     else pure .null
   match d.resolve with
   | some r =>
-    let out := runStrand c r
+    let out := runStrandX c r population fraction
     let out0 := runStrand c r.strip
     let twins := getBoolD j "twins" false
     let same := !twins || SKey.all.all (fun key =>
       let b := strandBlocks c r key
       let b0 := strandBlocks c r.strip key
       b.baseL == b0.baseL && b.subsL == b0.subsL)
-    pure (jObj [("t", strandOutJson out), ("strip", jObj [("row_order", jInts out0.rowOrder)]),
+    pure (jObj [("t", strandOutJson c out), ("strip", jObj [("row_order", jInts out0.rowOrder)]),
                 ("wf", .bool (decide (StrandWF c r))), ("blocks_equal", .bool same),
-                ("reindex_equal", .bool (!twins || out.reindexedFrom out0)),
+                ("reindex_equal", .bool (!twins || out.core.reindexedFrom out0)),
+                ("row_sort_keys", sortKeysJson (strandROrder (strandBlocks c r) (strandAvail c) r)),
                 ("n_row_subtotals", jNat r.subtotals.length),
                 ("row_insertion_ids", jInts (bogusIds r.cdim.subs)),
                 ("pruning_mask", jBools (tab1 c.u.n (fun i => c.u.pruningBase i == .fin 0))),
